@@ -846,6 +846,16 @@ func (c *CEnv) call(x *ast.CallExpr) CVal {
 		n := c.sub(map[string]CVal{id.Name: {S: bv, T: t}})
 		body := n.evalBool(arg(2))
 		return CVal{S: fmt.Sprintf("(forall ((%s %s)) %s)", bv, e.sortOf(t), body), T: boolT}
+	case "bytestr":
+		// bytestr(bs) = string(bs) for a []byte (the same uninterpreted function the engine uses for the conversion)
+		e.bytesDecls()
+		sv := c.ev(arg(0))
+		sl, ok := sv.T.Underlying().(*types.Slice)
+		if !ok {
+			return c.fail("bytestr: need a []byte")
+		}
+		h := e.comp(c.st, elemCompName(e, sl.Elem()), e.elemSort(sl.Elem()))
+		return CVal{S: fmt.Sprintf("(go.bytes2str (select %s (s_arr %s)) (s_off %s) (s_len %s))", h, sv.S, sv.S, sv.S), T: types.Typ[types.String]}
 	case "runesub", "runecount", "runeat":
 		// the string <-> []rune model: runesub(s, a, b) = string([]rune(s)[a:b]), runecount(s) = len([]rune(s)),
 		// runeat(s, i) = string([]rune(s)[i])
